@@ -24,6 +24,14 @@ class DriverCrash(Exception):
         return crash_signature(self.stderr, self.returncode)
 
 
+class DriverHang(Exception):
+    """The driver did not finish within the watchdog; `index` = number of complete records produced."""
+
+    def __init__(self, index, line, timeout, out):
+        Exception.__init__(self, "driver watchdog after %ss at case ~%d" % (timeout, index))
+        self.index, self.line, self.timeout, self.out = index, line, timeout, out
+
+
 def _in_repo(path):
     if os.path.isabs(path):
         return path.startswith(build.REPO + "/")
@@ -73,8 +81,9 @@ def run_lines(exe, lines, env=None, timeout=900, parse=True, raw=False, wrapper=
         p = subprocess.run(cmd, input=data, stdout=subprocess.PIPE, stderr=subprocess.PIPE,
                            env=env or build.san_env(), timeout=timeout)
     except subprocess.TimeoutExpired as e:
-        out = (e.stdout or b"").decode("ascii", "replace").splitlines()
-        raise TimeoutError("driver watchdog after %ss at case ~%d" % (timeout, len(out)))
+        out = (e.stdout or b"").decode("ascii", "replace")
+        done = out.count("\n")
+        raise DriverHang(done, lines[done] if done < len(lines) else None, timeout, out)
     out = p.stdout.decode("ascii", "replace")
     if raw:
         if p.returncode != 0:
@@ -111,6 +120,31 @@ def run_lines_resilient(exe, lines, env=None, timeout=900, max_crashes=50, wrapp
             r = run_lines(exe, lines[start:], env=env, timeout=timeout, wrapper=wrapper)
             recs[start:] = r
             break
+        except DriverHang as h:
+            # the watchdog alone decides nothing: re-run the suspected case alone; a second hang on one small case is a
+            # violation candidate (library does not terminate), otherwise the batch is retried once and then inconclusive
+            bad = start + h.index
+            if bad >= len(lines):
+                raise TimeoutError(str(h))
+            try:
+                single = run_lines(exe, [lines[bad]], env=env, timeout=60, wrapper=wrapper)
+                # the single case terminates: slow machine or harness problem
+                if getattr(run_lines_resilient, "_retried", None) == (exe, bad):
+                    raise TimeoutError(str(h))
+                run_lines_resilient._retried = (exe, bad)
+                continue
+            except DriverHang:
+                crashes.append((bad, "hang/no-termination-within-60s", "watchdog: case did not terminate twice (batch %ss, alone 60s)" % h.timeout))
+                for k, l in enumerate(h.out.split("\n")[:h.index]):
+                    try:
+                        recs[start + k] = json.loads(l)
+                    except ValueError:
+                        pass
+                start = bad + 1
+                continue
+            except DriverCrash:
+                start = bad   # let the normal path attribute the crash
+                continue
         except DriverCrash as c:
             recs[start:start + c.index] = c.records[:c.index]
             bad = start + c.index
